@@ -1022,10 +1022,24 @@ class tzrange(tzrangebase):
 
         base_year = datetime.datetime(year, 1, 1)
 
-        start = base_year + self._start_delta
-        end = base_year + self._end_delta
+        start = self._resolve_rule(base_year, self._start_delta)
+        end = self._resolve_rule(base_year, self._end_delta)
 
         return (start, end)
+
+    @staticmethod
+    def _resolve_rule(base_year, delta):
+        # The rule's time of day counts from midnight of the day its date
+        # part selects. relativedelta adds relative days/hours/... *before*
+        # it resolves the weekday, so a time outside [0, 24h) (e.g. "/24",
+        # or an end time earlier than the saving once expressed in standard
+        # time) would pick the weekday from a neighbouring day, or even
+        # year: resolve the date first, then add the time.
+        time_part = relativedelta.relativedelta(
+            days=delta.days, hours=delta.hours, minutes=delta.minutes,
+            seconds=delta.seconds, microseconds=delta.microseconds)
+
+        return base_year + (delta - time_part) + time_part
 
     def __eq__(self, other):
         if not isinstance(other, tzrange):
